@@ -76,8 +76,13 @@ Definition guarded (s : state) (cur : option nid) (n : nid) : bool :=
 
 Definition stamps_node (s : state) (strict : bool) (n : nid) : bool :=
   let x := nd s n in
-  (0 <=? changedAt x) && (changedAt x <=? recomputedAt x) &&
-  (if strict then recomputedAt x <? stabNum s else recomputedAt x <=? stabNum s).
+  (* [changedAt <= recomputedAt] does not survive a recovered panic (the stamp is reset to 0):
+     what holds is that both stamps are old, and that a node stamped as changed in the running
+     pass has run in it *)
+  (0 <=? changedAt x) && (0 <=? recomputedAt x) &&
+  (if strict then (changedAt x <? stabNum s) && (recomputedAt x <? stabNum s)
+   else (changedAt x <=? stabNum s) && (recomputedAt x <=? stabNum s) &&
+        implb (changedAt x =? stabNum s) (recomputedAt x =? stabNum s)).
 
 Record ValInv (s : state) : Prop := {
   vi_bf : BF s;
